@@ -162,13 +162,8 @@ func (*Reader).Consume
       invariant[below] forall j :: 0 <= j && j < i ==> recPos(r.gfile, recIdx(r.gfile, old(position)) + j) <= maxPosition
       decreases maxCount - i
 
-// number of failed Get calls per reader (bookkeeping for "a call during which a read failed, fails" in the callers)
-ghost counter gFails map[*Reader]int
-
 func (*Reader).Get
     requires wfFile(r.gfile)
-    assigns gFails
-    ensures[ghost_fails] gFails[r] == old(gFails)[r] + ite(err != nil, 1, 0) && (forall o *Reader :: o != r ==> gFails[o] == old(gFails)[o])
     ensures[record] atRec(r.gfile, position) ==> err == nil && isRec(msg, r.gfile, recIdx(r.gfile, position))
 
 func (*Reader).Read
